@@ -1,6 +1,7 @@
 """C07: ilength inverts length on [0, L], is monotone, total and terminates."""
 from __future__ import annotations
 import math
+import cmath
 import struct
 import warnings
 from fractions import Fraction as Fr
@@ -211,7 +212,7 @@ def sample(ctx, budget=1.0, hint=None, broken=None):
 
     for it in range(int(ctx.n(60, 400) * budget)):
         scale = r.choice([1e-3, 1.0, 1.0, 1e2, 1e4, 1e6])
-        kind = r.choice(['line', 'quad', 'cubic', 'arc', 'arc', 'path', 'path'])
+        kind = r.choice(['line', 'quad', 'cubic', 'arc', 'arc', 'path', 'path', 'cusp', 'flat-arc'])
         z0 = complex(r.uniform(-1, 1), r.uniform(-1, 1)) * scale
         if kind == 'path':
             segs, cur = [], z0
@@ -221,6 +222,19 @@ def sample(ctx, budget=1.0, hint=None, broken=None):
             if r.random() < 0.3:     # an outline traversed twice: equal segments
                 segs = segs + [P.Line(cur, z0)] + [type(s)(*s.bpoints()) if not isinstance(s, P.Arc) else s for s in segs]
             curve = P.Path(*segs)
+        elif kind in ('cusp', 'flat-arc'):
+            # small curves whose speed is hard to integrate: a cubic with a cusp (or a retracted handle), a very flat elliptical arc
+            k_ = scale * r.choice([1.0, 1.0, 0.3])
+            w_ = cmath.exp(1j * r.choice([0.0, 0.0, 0.7, 2.1]))
+            if kind == 'cusp':
+                if r.random() < 0.7:
+                    curve = P.CubicBezier(z0, z0 + k_ * (1 + 1j) * w_, z0 + k_ * 1j * w_, z0 + k_ * w_)
+                else:
+                    curve = P.CubicBezier(z0, z0, z0 + k_ * w_, z0 + k_ * 1j * w_)
+                if r.random() < 0.3:
+                    curve = P.Path(P.Line(curve.start - k_, curve.start), curve, P.Line(curve.end, curve.end - k_ * 1j))
+            else:
+                curve = P.Arc(z0, complex(k_, k_ * r.choice([1e-3, 3e-3, 1e-2])), 0, True, True, z0 + k_ * complex(0.5, 2e-4))
         else:
             curve = _rand_seg(spt, r, z0, scale, kind)
             if kind == 'arc' and r.random() < 0.5:
